@@ -37,6 +37,9 @@ FAMILIES = {
     "nested <a <a />": lambda n: "<a " * n + "/>" * n, "nested <a b=<a b=": lambda n: "<a b=" * n + "x" + ">y</a>" * n,
     "nested <a b=\"<a b=\"": lambda n: "<a b=\"" * n + "x" + "\">y</a>" * n, "nested <a {{b|<a": lambda n: "<a {{b|" * n + "}}/>" * n,
     "nested {| a=<b ": lambda n: "{| a=<b c=" * n + "x" + ">y</b>\n|}" * n, "nested <a [[b|<a": lambda n: "<a [[b|" * n + "]]/>" * n,
+    "nested table in a multi-line cell": lambda n: "{|\n| <span>\n" * n + "\n|}</span> | x" * n,
+    "nested table in a styled cell": lambda n: "{|\n| a=b | <span>\n" * n + "\n|}</span> | x" * n,
+    "nested table after a template in a cell": lambda n: "{|\n| {{t|\n}} | {{u|\n" * n + "}}\n|} | x" * n,
     "nested tables": lambda n: "{|\n|\n" * n + "|}\n" * n, "nested [x {{": lambda n: "[http://a {{b|" * n + "}}]" * n,
     "nested '' '''": lambda n: "''a'''b" * n + "'''''" * n,
     "nested {{a|'''''": lambda n: "{{a|'''''" * n + "'''''}}" * n, "nested {{ runs": lambda n: ("{{" * 40 + "a|") * n + "}}" * (40 * n),
@@ -57,11 +60,14 @@ FAMILIES = {
 FRAME_LIMIT = 420          # Python frames while tokenizing: about 3 per open stack (MAX_DEPTH = 100) + harness
 TREE_LIMIT = 210           # nesting of the tree: at most 2 levels per open stack
 OPENERS = ["{{", "{{{", "[[", "[", "<b>", "''", "'''", "{|\n|", "[http://a ", "[[http://a ", "[[//a b", "<ref>", "{{a|", "[[a|", "== ", "<!--", "&#",
-           "<b a=\"", "[//a ", "http://a ", "{{a|b=", "<br ", "</", "\n*", "{{{a|", "<nowiki>", "<pre a=\"", "\n;"]
+           "<b a=\"", "[//a ", "http://a ", "{{a|b=", "<br ", "</", "\n*", "{{{a|", "<nowiki>", "<pre a=\"", "\n;", "<br a=\"x>", "<ref name=\"a>t</ref>", "<b a='x>y</b>", "{| a=\"b\n|x\n|}\n", "\n| <span>\n"]
 
 
 def family(name):
     """a size -> text function for a catalogue name or for 'pair <i> <j>' (two openers alternating, never closed)"""
+    if name.startswith("single "):
+        o1 = OPENERS[int(name.split()[1])]
+        return lambda n: o1 * n
     if name.startswith("pair "):
         _p, i, j = name.split()
         o1, o2 = OPENERS[int(i)], OPENERS[int(j)]
@@ -78,7 +84,7 @@ def sizes(maxn):
     return [x for x in out if x <= maxn]
 
 
-PY_BUDGET = 2_500_000      # work units per run (about 2-3 s)
+PY_BUDGET = 1_500_000      # work units per run (about 1-2 s)
 C_BUDGET_S = 1.5
 
 
@@ -231,8 +237,9 @@ def run(tier, seed):
     rng = random.Random(seed * 31 + 5)
     pairs = [(i, j) for i in range(len(OPENERS)) for j in range(len(OPENERS)) if i != j]
     if tier == "quick":
-        pairs = rng.sample(pairs, 48)
-    jobs = [(name, maxn, tier) for name in sorted(FAMILIES)] + [("pair %d %d" % p, maxn, tier) for p in pairs]
+        pairs = rng.sample(pairs, 32)
+    jobs = [(name, maxn, tier) for name in sorted(FAMILIES)] + [("single %d" % i, maxn, tier) for i in range(len(OPENERS))] + \
+        [("pair %d %d" % p, maxn, tier) for p in pairs]
     res = vlib.robust_map(family_run, jobs, chunk=1, timeout=300 if tier == "quick" else 1800, procs=14)
     table = {}
     nontrivial = 0
@@ -268,7 +275,7 @@ def run(tier, seed):
                               "tree_depth": rec["depth"]}
     c.cov["distinct_nontrivial"] = nontrivial
     c.cov["rule"] = ("%d size-parameterised families (unclosed, crossed, properly nested openers of every construct kind; repeated delimiters; "
-                     "pairs of alternating unclosed openers out of 28 - 48 random pairs in the quick tier, all 756 in the thorough tier) at "
+                     "pairs of alternating unclosed openers (every opener alone, and pairs) out of 33 - 32 random pairs in the quick tier, all 1056 in the thorough tier) at "
                      "sizes n = 8, 12, ..., 32, 48, 64, then doubling, up to %d units (Python: until %d work units; C: until %.1f s CPU); non-trivial = family "
                      "measured at n >= 64" % (len(jobs), maxn, PY_BUDGET, C_BUDGET_S))
     c.cov["samples"] = [{"family": k, **v} for k, v in list(table.items())[:4]]
